@@ -57,6 +57,8 @@ def run_one(prop, plan, sched, verbose=False):
     signal.setitimer(signal.ITIMER_REAL, WATCHDOG_S)
     gc_was = gc.isenabled()
     gc.disable()
+    from . import boot
+    boot.reset_process_state()
     try:
         run = prop.execute(plan, sched, verbose)
     finally:
